@@ -14,7 +14,7 @@ def _terms(ex):
     ts = []
     for name in ex.params:
         v = ex.arg_vals[name]
-        if hasattr(v, "v") and z3.is_expr(v.v) and v.v.sort() == z3.IntSort():
+        if hasattr(v, "v") and z3.is_expr(v.v) and (v.v.sort() == z3.IntSort() or z3.is_bv(v.v)):
             ts.append(v.v)
     for (rid, field), arr in list(ex.heap0.arrays.items()):
         if not z3.is_const(arr):
@@ -55,10 +55,17 @@ def run(ex, n_inputs=40, seed=0, bound=3):
     while len(models) < n_inputs and tries < n_inputs * 3:
         tries += 1
         s.push()
-        pick = rnd.sample(terms, min(len(terms), rnd.randint(2, 8))) if terms else []
+        pick = rnd.sample(terms, min(len(terms), rnd.randint(min(2, len(terms)), 8))) if terms else []
         for t in pick:
             s.push()
-            s.add(t == rnd.choice(vals))
+            if z3.is_bv(t):
+                # words with a random lowest set bit / random dense patterns
+                w = t.size()
+                kbit = rnd.randrange(w)
+                val = ((rnd.getrandbits(w) | 1) << kbit) & ((1 << w) - 1)
+                s.add(t == z3.BitVecVal(val, w))
+            else:
+                s.add(t == rnd.choice(vals))
             if s.check() != z3.sat:
                 s.pop()
         r = s.check()
